@@ -383,3 +383,168 @@ func comparisonConstants(fn *ssa.Function) []int64 {
 	sort.Slice(out, func(i, j int) bool { return out[i] < out[j] })
 	return out
 }
+
+// noteStructTableLoad: a load of field f of an element of a function-local table of structs whose field f is
+// initialised with constants only (a table-driven loop: for _, e := range [...]struct{pos int; …}{…} { x[e.pos] }).
+// The element may be read in place (&table[i].f) or through the range variable's copy (e := table[i]; &e.f).
+func (pr *Prover) noteStructTableLoad(a string, ld *ssa.UnOp) {
+	fa, ok := ld.X.(*ssa.FieldAddr)
+	if !ok {
+		return
+	}
+	// the array the element comes from
+	var tables []*ssa.Alloc
+	arrayOf := func(addr ssa.Value) *ssa.Alloc {
+		ia, ok := addr.(*ssa.IndexAddr)
+		if !ok {
+			return nil
+		}
+		x := ia.X
+		if sl, ok := x.(*ssa.Slice); ok {
+			x = sl.X
+		}
+		al, _ := x.(*ssa.Alloc)
+		return al
+	}
+	switch x := fa.X.(type) {
+	case *ssa.IndexAddr:
+		if al := arrayOf(x); al != nil {
+			tables = append(tables, al)
+		}
+	case *ssa.Alloc:
+		// the range variable: every store into it is a whole-element load from one table
+		if x.Referrers() == nil {
+			return
+		}
+		for _, r := range *x.Referrers() {
+			st, ok := r.(*ssa.Store)
+			if !ok || st.Addr != ssa.Value(x) {
+				continue
+			}
+			var al *ssa.Alloc
+			switch el := st.Val.(type) {
+			case *ssa.UnOp: // e := table[i] through the element's address
+				if el.Op != token.MUL {
+					return
+				}
+				al = arrayOf(el.X)
+			case *ssa.Index: // ranging over the array value: a copy of the whole table, then table[i]
+				if whole, ok := el.X.(*ssa.UnOp); ok && whole.Op == token.MUL {
+					al, _ = whole.X.(*ssa.Alloc)
+				}
+			}
+			if al == nil {
+				return
+			}
+			tables = append(tables, al)
+		}
+	}
+	if len(tables) == 0 {
+		return
+	}
+	lo, hi := math.Inf(1), math.Inf(-1)
+	for _, t := range tables {
+		pt, ok := t.Type().Underlying().(*types.Pointer)
+		if !ok {
+			return
+		}
+		at, ok := pt.Elem().Underlying().(*types.Array)
+		if !ok || t.Referrers() == nil {
+			return
+		}
+		seen := map[int64]bool{}
+		for _, r := range *t.Referrers() {
+			switch x := r.(type) {
+			case *ssa.DebugRef:
+			case *ssa.UnOp: // the whole table read by value (range over the array)
+			case *ssa.Slice:
+				// handed on as a slice: it must only be ranged over / indexed for reading
+				if x.Referrers() != nil {
+					for _, r2 := range *x.Referrers() {
+						switch y := r2.(type) {
+						case *ssa.DebugRef, *ssa.Call:
+							if c, isCall := y.(*ssa.Call); isCall {
+								if bi, isB := c.Call.Value.(*ssa.Builtin); !isB || bi.Name() != "len" {
+									return
+								}
+							}
+						case *ssa.IndexAddr:
+							if !onlyLoadedFrom(y) {
+								return
+							}
+						default:
+							return
+						}
+					}
+				}
+			case *ssa.IndexAddr:
+				k, isC := constInt(x.Index)
+				if x.Referrers() == nil {
+					continue
+				}
+				for _, r2 := range *x.Referrers() {
+					switch y := r2.(type) {
+					case *ssa.DebugRef:
+					case *ssa.UnOp: // element load
+					case *ssa.FieldAddr:
+						if y.Referrers() == nil {
+							continue
+						}
+						for _, r3 := range *y.Referrers() {
+							switch z := r3.(type) {
+							case *ssa.DebugRef, *ssa.UnOp:
+							case *ssa.Store:
+								if y.Field != fa.Field {
+									continue
+								}
+								cv, isK := constInt(z.Val)
+								if !isK || !isC || z.Addr != ssa.Value(y) {
+									return
+								}
+								seen[k] = true
+								lo, hi = math.Min(lo, float64(cv)), math.Max(hi, float64(cv))
+							default:
+								return
+							}
+						}
+					default:
+						return
+					}
+				}
+			default:
+				return
+			}
+		}
+		if int64(len(seen)) < at.Len() {
+			lo, hi = math.Min(lo, 0), math.Max(hi, 0) // elements never stored to keep the zero value
+		}
+	}
+	if !math.IsInf(lo, 0) && !math.IsInf(hi, 0) {
+		pr.atomRange(a, lo, hi)
+	}
+}
+
+func onlyLoadedFrom(ia *ssa.IndexAddr) bool {
+	if ia.Referrers() == nil {
+		return true
+	}
+	for _, r := range *ia.Referrers() {
+		switch y := r.(type) {
+		case *ssa.DebugRef:
+		case *ssa.UnOp:
+		case *ssa.FieldAddr:
+			if y.Referrers() != nil {
+				for _, r2 := range *y.Referrers() {
+					switch r2.(type) {
+					case *ssa.DebugRef, *ssa.UnOp:
+					default:
+						return false
+					}
+				}
+			}
+		default:
+			return false
+		}
+	}
+	return true
+}
